@@ -5,6 +5,7 @@ import (
 	"context"
 	"errors"
 	"fmt"
+	"io"
 	"regexp"
 	"sort"
 	"strings"
@@ -80,7 +81,29 @@ type missWatch struct {
 	// pending (optional): deliveries the handler is still owed before the source can be waiting for `base` — on a
 	// loaded machine the launcher polls for the missing file long before the first handler call
 	pending func(base string) bool
+	opened  int // merged files handed to the source …
+	eofs    int // … and read to their end
 }
+
+// eofReader tells the watcher when a merged file has been read to its end
+type eofReader struct {
+	r    io.Reader
+	w    *missWatch
+	done bool
+}
+
+func (e *eofReader) Read(p []byte) (int, error) {
+	n, err := e.r.Read(p)
+	if err == io.EOF && !e.done {
+		e.done = true
+		e.w.Lock()
+		e.w.eofs++
+		e.w.last = time.Now()
+		e.w.Unlock()
+	}
+	return n, err
+}
+func (e *eofReader) Close() error { return nil }
 
 func (w *missWatch) touch() {
 	w.Lock()
@@ -91,10 +114,24 @@ func (w *missWatch) touch() {
 func mergedStore(bundles []fsBundle, w *missWatch) *dstore.MockStore {
 	st := dstore.NewMockStore(nil)
 	names := map[string]bool{}
+	content := map[string][]byte{}
 	for _, bu := range bundles {
 		name := fmt.Sprintf("%010d", bu.base)
-		st.SetFile(name, bundleBytes(bu.blocks))
+		content[name] = bundleBytes(bu.blocks)
+		st.SetFile(name, content[name])
 		names[name] = true
+	}
+	if w != nil {
+		st.OpenObjectFunc = func(ctx context.Context, name string) (io.ReadCloser, error) {
+			c, ok := content[name]
+			if !ok {
+				return nil, dstore.ErrNotFound
+			}
+			w.Lock()
+			w.opened++
+			w.Unlock()
+			return &eofReader{r: bytes.NewReader(c), w: w}, nil
+		}
 	}
 	st.FileExistsFunc = func(ctx context.Context, base string) (bool, error) {
 		if names[base] {
@@ -117,6 +154,9 @@ func mergedStore(bundles []fsBundle, w *missWatch) *dstore.MockStore {
 							time.Sleep(5 * time.Millisecond)
 							w.Lock()
 							quiet := time.Since(w.last) > 40*time.Millisecond
+							if w.opened != w.eofs && time.Since(began) < 5*time.Second {
+								quiet = false // a queued file has not been read to its end yet
+							}
 							w.Unlock()
 							if quiet && w.pending != nil && w.pending(base) && time.Since(began) < 5*time.Second {
 								continue // blocks of files already queued have not reached the handler yet
